@@ -100,7 +100,7 @@ class Prop:
     budget_s = {"quick": 60, "thorough": 900}
     nshards = {"quick": 16, "thorough": 16}
 
-    def worker_pyflags(self, shard: int) -> List[str]:
+    def worker_pyflags(self, shard: int, nshards: int = 1) -> List[str]:
         """Extra interpreter flags for the worker of this shard (e.g. ['-O'])."""
         return []
 
